@@ -12,6 +12,9 @@ import StyluaModel.Model.Run
 import Driver.DiffProto
 import Driver.ConfigProto
 import Driver.SelectProto
+import Driver.TypeProto
+import Driver.IgnoreProto
+import StyluaModel.Model.Table
 import StyluaModel.Model.Stdin
 /-
 `modeld`: one request per line on stdin, one answer per line on stdout.
@@ -103,6 +106,15 @@ def handle (line : String) : String :=
       s!"{out} {r.exit}"
   | ["optiontables"] => "ok"
   | ["select", g, r, body] => Driver.SelectProto.handle g r body
+  | ["tabledec", w, col, hf, nl, span, wo, wc, ex] =>
+      match w.toNat?, col.toNat?, span.toNat? with
+      | some w, some col, some span =>
+          match StyluaModel.Table.decide w col { hasFields := hf == "1", nlAfterOpen := nl == "1", span := span, wsAfterOpen := wo == "1", wsBeforeClose := wc == "1", expand := ex == "1" } with
+          | .empty => "empty" | .single => "single" | .multi => "multi"
+      | _, _, _ => "bad-op"
+  | ["ignore", v, cwd, spd, p, dirs, ms] => Driver.IgnoreProto.handle v cwd spd p dirs ms
+  | ["tyfmt", i, o] => Driver.TypeProto.handleFmt i o
+  | ["tywf", t, r] => Driver.TypeProto.handleWf t r
   | ["parse", i] => Driver.ExprProto.handleParse i
   | ["faithful", i] => Driver.ExprProto.handleFaithful i
   | ["semeq", i, o] => Driver.ExprProto.handleSem i o
